@@ -227,6 +227,33 @@ func bindErrLabel(err error) string {
 
 type strangeBinding struct{ bcl.StructBinding }
 
+// prefill stores previous content in every settable scalar of a struct value, recursively through struct fields
+// (pointers, slices, interfaces stay nil): 77, 7.5, "stale", true.
+func prefill(v reflect.Value) {
+	switch v.Kind() {
+	case reflect.Struct:
+		for i := 0; i < v.NumField(); i++ {
+			prefill(v.Field(i))
+		}
+	case reflect.Int:
+		if v.CanSet() && v.Type() == reflect.TypeOf(int(0)) {
+			v.SetInt(77)
+		}
+	case reflect.Float64:
+		if v.CanSet() {
+			v.SetFloat(7.5)
+		}
+	case reflect.String:
+		if v.CanSet() {
+			v.SetString("stale")
+		}
+	case reflect.Bool:
+		if v.CanSet() {
+			v.SetBool(true)
+		}
+	}
+}
+
 // bind: Bind(target, binding) on a target built from the type description; zero or previous contents.
 func suiteBind(c M) M {
 	if n, ok := c["repeat"].(float64); ok && n > 1 {
@@ -275,6 +302,9 @@ func suiteBind(c M) M {
 		if n, ok := c["prev"].(float64); ok && t.Kind() == reflect.Slice {
 			ptr.Elem().Set(reflect.MakeSlice(t, int(n), int(n)))
 		}
+		if c["prefill"] == true && t.Kind() == reflect.Struct {
+			prefill(ptr.Elem())
+		}
 		target = ptr.Interface()
 	}
 	before := ""
@@ -310,6 +340,9 @@ func suiteUnmarshal(c M) M {
 	ptr := reflect.New(t)
 	if n, ok := c["prev"].(float64); ok && t.Kind() == reflect.Slice {
 		ptr.Elem().Set(reflect.MakeSlice(t, int(n), int(n)))
+	}
+	if c["prefill"] == true && t.Kind() == reflect.Struct {
+		prefill(ptr.Elem())
 	}
 	var err error
 	class, pm := guard(20*time.Second, func() {
